@@ -438,7 +438,11 @@ func realAuthorizer(c *ev.Check) {
 		var rec func(seq []int)
 		rec = func(seq []int) {
 			if len(seq) == seqLen {
-				runRealSeq(c, pn, allowed, seq)
+				// how the target cluster says "no": denied, no opinion at all, or - a confused authorizer chain - allowed
+				// and denied at once; none of them is an allowance
+				for _, shape := range []string{"denied", "no-opinion", "allowed+denied"} {
+					runRealSeq(c, pn, allowed, seq, shape)
+				}
 				return
 			}
 			for i := range requestors {
@@ -449,7 +453,8 @@ func realAuthorizer(c *ev.Check) {
 	}
 }
 
-func runRealSeq(c *ev.Check, pn string, allowed func(string, []string, map[string][]string) bool, seq []int) {
+func runRealSeq(c *ev.Check, pn string, allowed func(string, []string, map[string][]string) bool, seq []int, noShape string) {
+	pn = pn + ", refusals answered as " + noShape
 	w := &world{r: e2e.New(), up: e2e.NewUpstream("u1")}
 	defer func() { w.r.Close(); w.up.Close() }()
 	w.r.AddCluster(e2e.ClusterObject("c1", w.up), nil)
@@ -466,7 +471,13 @@ func runRealSeq(c *ev.Check, pn string, allowed func(string, []string, map[strin
 			reviews++
 			sar.Status = authorizationv1.SubjectAccessReviewStatus{Allowed: allowed(sar.Spec.User, sar.Spec.Groups, extra)}
 			if !sar.Status.Allowed {
-				sar.Status.Denied, sar.Status.Reason = true, "policy "+pn
+				sar.Status.Reason = "policy " + pn
+				switch noShape {
+				case "denied":
+					sar.Status.Denied = true
+				case "allowed+denied":
+					sar.Status.Allowed, sar.Status.Denied = true, true
+				}
 			}
 			rw.Header().Set("Content-Type", "application/json")
 			rw.WriteHeader(201)
@@ -509,7 +520,7 @@ func runRealSeq(c *ev.Check, pn string, allowed func(string, []string, map[strin
 		} else {
 			if len(proxied) != 0 {
 				viol("forwarded-despite-refusal", "%s is NOT allowed to impersonate by the target cluster, yet the request was forwarded as %q (a decision obtained for another requestor was replayed; reviews sent so far: %d)", q.label, proxied[0].Header.Get("Impersonate-User"), reviews)
-			} else if resp.StatusCode != 403 {
+			} else if resp.StatusCode != 403 && !(noShape == "allowed+denied" && resp.StatusCode == 500) {
 				viol("wrong-refusal-status", "answered %d, expected 403", resp.StatusCode)
 			}
 		}
